@@ -5,9 +5,11 @@ import (
 	"crypto/hmac"
 	"crypto/sha1"
 	"fmt"
+	"github.com/Jigsaw-Code/outline-sdk/transport/shadowsocks"
 	"io"
 	"math/rand"
 	"net"
+	"runtime"
 	"sync"
 	"time"
 
@@ -293,12 +295,88 @@ func c08Run(c *vk.Ctx) {
 	_ = rand.Int
 }
 
+// c08Burst: response streams started in bulk, the way many handlers of one key do at the same
+// moment: one shadowsocks.Writer per "connection", all sharing the key's salt generator (the
+// object the stream handler uses). Every stream starts with a salt no other stream of the run
+// starts with, and the key's generator recognises each of them as server-issued.
+func c08Burst(c *vk.Ctx) bool {
+	r := c.Rng
+	defer runtime.GOMAXPROCS(runtime.GOMAXPROCS(16))
+	const workers, perWorker = 16, 2000
+	for _, cn := range cipherNames {
+		k := KeySpec{ID: "burst", Cipher: cn, Secret: randSecret(r)}
+		key, err := shadowsocks.NewEncryptionKey(cn, k.Secret)
+		if err != nil {
+			fatalf("key: %v", err)
+		}
+		entry := service.MakeCipherEntry(k.ID, key, k.Secret)
+		seen := map[string]bool{}
+		for round := 0; round < c.N(3, 12); round++ {
+			salts := make([][]byte, workers)
+			errs := make([]string, workers)
+			start := make(chan struct{})
+			var wg sync.WaitGroup
+			for w := 0; w < workers; w++ {
+				wg.Add(1)
+				go func(w int) {
+					defer wg.Done()
+					defer func() {
+						if p := recover(); p != nil {
+							errs[w] = fmt.Sprintf("panic while starting a response stream: %v", p)
+						}
+					}()
+					<-start
+					ss := key.SaltSize()
+					all := make([]byte, 0, perWorker*ss)
+					var out bytes.Buffer
+					for i := 0; i < perWorker; i++ {
+						out.Reset()
+						ssw := shadowsocks.NewWriter(&out, key)
+						ssw.SetSaltGenerator(entry.SaltGenerator)
+						if _, err := ssw.Write([]byte{1}); err != nil {
+							errs[w] = err.Error()
+							return
+						}
+						all = append(all, out.Bytes()[:ss]...)
+					}
+					salts[w] = all
+				}(w)
+			}
+			c.Progress("C08 burst cipher=%s round=%d", cn, round)
+			close(start)
+			wg.Wait()
+			ss := key.SaltSize()
+			for w := range salts {
+				if errs[w] != "" {
+					c.Violation("C08/burst/response-stream-could-not-start", map[string]any{"cipher": cn, "error": errs[w]})
+					return false
+				}
+				for i := 0; i+ss <= len(salts[w]); i += ss {
+					salt := salts[w][i : i+ss]
+					if seen[string(salt)] {
+						c.Violation("C08/server-salt-repeated", map[string]any{"salt": fmt.Sprintf("%x", salt), "cipher": cn, "phase": fmt.Sprintf("%d handlers starting response streams concurrently", workers), "salts_issued_before": len(seen)})
+						return false
+					}
+					seen[string(salt)] = true
+					if ss >= 20 && !entry.SaltGenerator.IsServerSalt(salt) {
+						c.Violation("C08/burst/issued-salt-not-recognised-as-server-salt", map[string]any{"salt": fmt.Sprintf("%x", salt), "cipher": cn})
+						return false
+					}
+				}
+			}
+		}
+		c.Count("burst_salts_pairwise_distinct", int64(len(seen)))
+		c.Eval("burst|" + cn)
+	}
+	return true
+}
+
 func init() {
 	vk.Register(&vk.Spec{
 		ID:    "C08",
 		Level: "exploration",
 		Rule: "collect: 400..4000 real connections (12 concurrent, hot keys shared) across all four ciphers with a speaking target; every response stream is decoded with the independent codec, its salt added to a set (pairwise freshness) and, for salts >= 20 bytes, its mark recomputed independently; " +
-			"reflect: every collected server output is presented back as client input (verbatim, truncated to 50 bytes / to the header, extended, or a fresh client stream built on the server's salt), with and without FIN, replay cache off and on; class = (phase, cipher, form, cache, FIN)",
+			"burst: 16 goroutines x 2000 response streams x 3..12 rounds per cipher started concurrently on one key's salt generator (as concurrent handlers do), salts pairwise distinct and recognised; reflect: every collected server output is presented back as client input (verbatim, truncated to 50 bytes / to the header, extended, or a fresh client stream built on the server's salt), with and without FIN, replay cache off and on; class = (phase, cipher, form, cache, FIN)",
 		Assumptions: []string{"the target's data is itself a valid request for a sink address, so an accepted reflection would be seen as a connection to the sink", "aes-128-gcm (16-byte salt): freshness only, as the property exempts it"},
 		Batches:     func(t string) int { return map[string]int{"quick": 3, "thorough": 12}[t] },
 		Parallel:    func(t string) int { return 3 },
@@ -308,6 +386,10 @@ func init() {
 			c.Require("salts_mark_verified")
 			c.Require("reflections_refused_cache-off")
 			c.Require("reflections_refused_cache-on")
+			c.Require("burst_salts_pairwise_distinct")
+			if !c08Burst(c) {
+				return
+			}
 			c08Run(c)
 		},
 	})
